@@ -1,20 +1,121 @@
 (* Proofs about Model/FixLoop.v (C12): termination under a progress hypothesis, post-condition,
    idempotence, and unconditional termination when only use-assignment-operator or only
-   non-raw-regex-pattern is enabled (measures from Proofs/Fixes.v). *)
+   non-raw-regex-pattern is enabled (measures from Proofs/Fixes.v); the candidate loop of a rename
+   (OnConflictRename) ends within |files| + 1 rounds when the candidate function never repeats a name. *)
 From Regal Require Import Model.FixLoop Proofs.Fixes.
 From Coq Require Import Lia.
 
 Local Open Scope nat_scope.
 
+(* ================================================================ the candidate loop of handleRename *)
+Section RenameLoopProofs.
+  Variable candidate : str -> str.
+  Notation cand_iter := (cand_iter candidate).
+  Notation rename_loop := (rename_loop candidate).
+
+  Lemma cand_iter_S k to : cand_iter (S k) to = candidate (cand_iter k to).
+  Proof. revert to. induction k as [|k IH]; intros to; [reflexivity|]. simpl. rewrite <- IH. reflexivity. Qed.
+
+  Lemma fs_get_in files : forall p, fs_get files p <> None -> In p (map fst files).
+  Proof.
+    induction files as [|[q c] t IH]; intros p H; simpl in *; [congruence|].
+    destruct (str_eqb_spec q p) as [->|Hne]; [left; reflexivity|right; apply IH; exact H].
+  Qed.
+
+  (* what a finished loop returns: the k-th candidate, free, after k occupied ones *)
+  Lemma rename_loop_spec fuel : forall files to k n,
+    rename_loop fuel files to = Some (k, n) ->
+    n = cand_iter k to /\ fs_get files n = None /\ k < fuel /\
+    (forall j, j < k -> fs_get files (cand_iter j to) <> None).
+  Proof.
+    induction fuel as [|f IH]; intros files to k n H; simpl in H; [discriminate|].
+    destruct (fs_get files to) as [c|] eqn:Hg.
+    - destruct (FixLoop.rename_loop candidate f files (candidate to)) as [[k' n']|] eqn:Hr; [|discriminate].
+      injection H as <- <-. destruct (IH _ _ _ _ Hr) as (Hn & Hfree & Hk & Hocc).
+      repeat split; [exact Hn | exact Hfree | lia |].
+      intros j Hj. destruct j as [|j]; simpl; [congruence|]. apply Hocc. lia.
+    - injection H as <- <-. repeat split; [exact Hg | lia |]. intros j Hj. lia.
+  Qed.
+
+  Lemma rename_loop_out_of_fuel fuel : forall files to,
+    rename_loop fuel files to = None -> forall j, j < fuel -> fs_get files (cand_iter j to) <> None.
+  Proof.
+    induction fuel as [|f IH]; intros files to H j Hj; [lia|]. simpl in H.
+    destruct (fs_get files to) as [c|] eqn:Hg; [|discriminate].
+    destruct (FixLoop.rename_loop candidate f files (candidate to)) as [[k' n']|] eqn:Hr; [discriminate|].
+    destruct j as [|j]; simpl; [congruence|]. apply (IH _ _ Hr). lia.
+  Qed.
+
+  Lemma nodup_map_seq_fx {A} (f : nat -> A) n :
+    (forall i j, i <> j -> f i <> f j) -> NoDup (map f (seq 0 n)).
+  Proof.
+    intros Hinj.
+    assert (G : forall len s, NoDup (map f (seq s len))).
+    { induction len as [|len IH]; intros s; simpl; [constructor|].
+      constructor; [|apply IH].
+      intros Hin. apply in_map_iff in Hin as [j [Hfj Hj]]. apply in_seq in Hj.
+      apply (Hinj j s); [lia | exact Hfj]. }
+    apply G.
+  Qed.
+
+  (* pigeonhole: n pairwise different names that are all held need n files *)
+  Lemma occupied_bound files to n :
+    (forall i j, i <> j -> cand_iter i to <> cand_iter j to) ->
+    (forall j, j < n -> fs_get files (cand_iter j to) <> None) ->
+    n <= length files.
+  Proof.
+    intros Hinj Hocc.
+    assert (Hnd : NoDup (map (fun k => cand_iter k to) (seq 0 n))) by (apply nodup_map_seq_fx; exact Hinj).
+    assert (Hincl : incl (map (fun k => cand_iter k to) (seq 0 n)) (map fst files)).
+    { intros x Hx. apply in_map_iff in Hx as [k [<- Hk]]. apply in_seq in Hk.
+      apply fs_get_in. apply Hocc. lia. }
+    pose proof (NoDup_incl_length Hnd Hincl) as Hlen.
+    rewrite !map_length, seq_length in Hlen. exact Hlen.
+  Qed.
+
+  (* ---- rename mode terminates: a candidate function that never repeats a name (a strictly increasing
+          counter) finds a free name within |files| + 1 rounds ---- *)
+  Theorem rename_loop_terminates files to fuel :
+    (forall i j, i <> j -> cand_iter i to <> cand_iter j to) ->
+    length files < fuel ->
+    exists k, k <= length files
+      /\ rename_loop fuel files to = Some (k, cand_iter k to)
+      /\ fs_get files (cand_iter k to) = None
+      /\ (forall j, j < k -> fs_get files (cand_iter j to) <> None).
+  Proof.
+    intros Hinj Hfuel.
+    destruct (rename_loop fuel files to) as [[k n]|] eqn:Hr.
+    - destruct (rename_loop_spec _ _ _ _ _ Hr) as (-> & Hfree & _ & Hocc).
+      exists k. repeat split; [|exact Hfree|exact Hocc].
+      apply (occupied_bound files to k Hinj Hocc).
+    - pose proof (rename_loop_out_of_fuel _ _ _ Hr) as Hocc.
+      pose proof (occupied_bound files to fuel Hinj Hocc). lia.
+  Qed.
+
+  (* the number of rounds does not depend on the fuel once there is enough of it *)
+  Lemma rename_loop_fuel_irrelevant fuel1 fuel2 files to r1 r2 :
+    rename_loop fuel1 files to = Some r1 -> rename_loop fuel2 files to = Some r2 -> r1 = r2.
+  Proof.
+    revert fuel2 to r1 r2. induction fuel1 as [|f1 IH]; intros fuel2 to r1 r2 H1 H2; [discriminate|].
+    destruct fuel2 as [|f2]; [discriminate|]. simpl in H1, H2.
+    destruct (fs_get files to) as [c|]; [|congruence].
+    destruct (FixLoop.rename_loop candidate f1 files (candidate to)) as [[k1 n1]|] eqn:E1; [|discriminate].
+    destruct (FixLoop.rename_loop candidate f2 files (candidate to)) as [[k2 n2]|] eqn:E2; [|discriminate].
+    pose proof (IH _ _ _ _ E1 E2) as E. injection E as -> ->. congruence.
+  Qed.
+End RenameLoopProofs.
+
 Section LoopProofs.
   Variable lint : fs -> option (list violation).
   Variable oracle_fix : rule -> str -> str -> fix_result.
   Variable rename_on_conflict : bool.
-  Variable free_name : fs -> str -> str.
+  Variable candidate : str -> str.
+  Variable rfuel : nat.
 
   Notation apply_fix := (apply_fix oracle_fix).
-  Notation pass := (pass oracle_fix rename_on_conflict free_name).
-  Notation loop := (loop lint oracle_fix rename_on_conflict free_name).
+  Notation pass := (pass oracle_fix rename_on_conflict candidate rfuel).
+  Notation loop := (loop lint oracle_fix rename_on_conflict candidate rfuel).
+  Notation handle_rename := (handle_rename rename_on_conflict candidate rfuel).
 
   (* the fix declines the violation on the current content of its file *)
   Definition declined (files : fs) (v : violation) : Prop :=
@@ -31,7 +132,7 @@ Section LoopProofs.
       destruct (apply_fix (v_rule v) (v_file v) content (v_loc v)) as [|c2|to|].
       + eapply IH; exact H.
       + eapply IH; exact H.
-      + destruct (handle_rename rename_on_conflict free_name files (v_file v) to content) as [f2 cf].
+      + destruct (handle_rename files (v_file v) to content) as [[f2 cf]|]; [|discriminate].
         injection H as _ <- _. reflexivity.
       + discriminate.
   Qed.
@@ -47,8 +148,7 @@ Section LoopProofs.
       + destruct (IH _ _ _ _ H) as (E1 & E2 & F). repeat split; auto.
         constructor; [exists content; split; assumption | exact F].
       + apply pass_made_mono in H. discriminate.
-      + destruct (handle_rename rename_on_conflict free_name files (v_file v) to content) as [f2 cf].
-        discriminate.
+      + destruct (handle_rename files (v_file v) to content) as [[f2 cf]|]; discriminate.
       + discriminate.
   Qed.
 
@@ -70,7 +170,7 @@ Section LoopProofs.
     cbn [FixLoop.loop] in H.
     destruct (lint files) as [[|v vs]|] eqn:Hl; [| |discriminate].
     - injection H as <- <-. exists []. split; [exact Hl|constructor].
-    - destruct (pass (v :: vs) files [] false c) as [|files2 made c2] eqn:Hp; [discriminate|].
+    - destruct (pass (v :: vs) files [] false c) as [| |files2 made c2] eqn:Hp; [discriminate|discriminate|].
       destruct made.
       + eapply IH. exact H.
       + injection H as <- <-.
@@ -89,21 +189,144 @@ Section LoopProofs.
     rewrite (pass_all_declined _ _ c2 F). reflexivity.
   Qed.
 
+  (* ---- the text fixes never move a file ---- *)
+  Definition never_moves (r : rule) : Prop :=
+    forall file content l to, apply_fix r file content l <> FRename to.
+
+  Lemma of_fix_out_not_rename o to : of_fix_out o <> FRename to.
+  Proof. destruct o; discriminate. Qed.
+
+  Lemma text_rule_never_moves r : (r = RUao \/ r = RNwc \/ r = RNrr) -> never_moves r.
+  Proof. intros [H|[H|H]]; subst r; intros file content l to; apply of_fix_out_not_rename. Qed.
+
+  Lemma pass_no_move_no_fuel vs : forall files fixed made c,
+    Forall (fun v => never_moves (v_rule v)) vs -> pass vs files fixed made c <> PFuel.
+  Proof.
+    induction vs as [|v vs IH]; intros files fixed made c F; simpl; [discriminate|].
+    pose proof (Forall_inv F) as Hv. pose proof (Forall_inv_tail F) as F'. cbv beta in Hv.
+    destruct (skip_violation fixed v); [apply IH; exact F'|].
+    destruct (fs_get files (v_file v)) as [content|]; [|discriminate].
+    destruct (apply_fix (v_rule v) (v_file v) content (v_loc v)) as [|c2|to|] eqn:Ha.
+    - apply IH; exact F'.
+    - apply IH; exact F'.
+    - exfalso. exact (Hv _ _ _ _ Ha).
+    - discriminate.
+  Qed.
+
+  (* ---- the number of files never grows ---- *)
+  Lemma fs_put_length_in files : forall p c0 c, fs_get files p = Some c0 -> length (fs_put files p c) = length files.
+  Proof.
+    induction files as [|[q d] t IH]; intros p c0 c H; simpl in *; [discriminate|].
+    destruct (str_eqb q p); simpl; [reflexivity|]. f_equal. eapply IH; exact H.
+  Qed.
+
+  Lemma fs_put_length_le files : forall p c, length (fs_put files p c) <= S (length files).
+  Proof.
+    induction files as [|[q d] t IH]; intros p c; simpl; [lia|].
+    destruct (str_eqb q p); simpl; [lia|]. specialize (IH p c). lia.
+  Qed.
+
+  Lemma fs_del_length_le files : forall p, length (fs_del files p) <= length files.
+  Proof.
+    induction files as [|[q d] t IH]; intros p; simpl; [lia|].
+    destruct (str_eqb q p); simpl; specialize (IH p); lia.
+  Qed.
+
+  Lemma fs_del_length files : forall p c0, fs_get files p = Some c0 -> S (length (fs_del files p)) <= length files.
+  Proof.
+    induction files as [|[q d] t IH]; intros p c0 H; simpl in *; [discriminate|].
+    destruct (str_eqb q p); simpl.
+    - pose proof (fs_del_length_le t p). lia.
+    - specialize (IH p c0 H). lia.
+  Qed.
+
+  Lemma handle_rename_length files from to content files' cf :
+    fs_get files from = Some content ->
+    handle_rename files from to content = Some (files', cf) -> length files' <= length files.
+  Proof.
+    intros Hg H. unfold FixLoop.handle_rename in H.
+    pose proof (fs_del_length files from content Hg) as Hd.
+    destruct (fs_get files to).
+    - destruct rename_on_conflict.
+      + destruct (rename_loop candidate rfuel files to) as [[k name]|]; [|discriminate].
+        injection H as <- _. pose proof (fs_put_length_le (fs_del files from) name content). lia.
+      + injection H as <- _. lia.
+    - injection H as <- _. pose proof (fs_put_length_le (fs_del files from) to content). lia.
+  Qed.
+
+  Lemma pass_length_le vs : forall files fixed made c files' made' c',
+    pass vs files fixed made c = POk files' made' c' -> length files' <= length files.
+  Proof.
+    induction vs as [|v vs IH]; intros files fixed made c files' made' c' H; simpl in H.
+    - injection H as <- _ _. lia.
+    - destruct (skip_violation fixed v); [eapply IH; exact H|].
+      destruct (fs_get files (v_file v)) as [content|] eqn:Hg; [|discriminate].
+      destruct (apply_fix (v_rule v) (v_file v) content (v_loc v)) as [|c2|to|].
+      + eapply IH; exact H.
+      + apply IH in H. rewrite (fs_put_length_in _ _ _ c2 Hg) in H. exact H.
+      + destruct (handle_rename files (v_file v) to content) as [[f2 cf]|] eqn:Hr; [|discriminate].
+        injection H as <- _ _. eapply handle_rename_length; eassumption.
+      + discriminate.
+  Qed.
+
   (* ---- termination under a progress hypothesis with an explicit measure ---- *)
   Section Progress.
     Variable mu : fs -> nat.
     Hypothesis H_progress : forall files vs files' c c',
       lint files = Some vs -> pass vs files [] false c = POk files' true c' -> mu files' < mu files.
 
-    Theorem loop_terminates fuel : forall files c,
-      mu files < fuel -> loop fuel files c <> OutOfFuel.
+    (* no candidate loop of the run is cut short (discharged below, and trivially when nothing moves) *)
+    Theorem loop_terminates_gen (P : fs -> Prop) :
+      (forall files vs c, P files -> lint files = Some vs -> pass vs files [] false c <> PFuel) ->
+      (forall files vs c files' made c', P files -> lint files = Some vs ->
+          pass vs files [] false c = POk files' made c' -> P files') ->
+      forall fuel files c, P files -> mu files < fuel -> loop fuel files c <> OutOfFuel.
     Proof.
-      induction fuel as [|f IH]; intros files c Hlt; [lia|].
+      intros Hnf Hpres fuel.
+      induction fuel as [|f IH]; intros files c HP Hlt; [lia|].
       cbn [FixLoop.loop].
       destruct (lint files) as [[|v vs]|] eqn:Hl; try discriminate.
-      destruct (pass (v :: vs) files [] false c) as [|files2 made c2] eqn:Hp; [discriminate|].
-      destruct made; [|discriminate].
-      apply IH. pose proof (H_progress _ _ _ _ _ Hl Hp). lia.
+      destruct (pass (v :: vs) files [] false c) as [| |files2 made c2] eqn:Hp; [discriminate| |].
+      - exfalso. exact (Hnf _ _ _ HP Hl Hp).
+      - destruct made; [|discriminate].
+        apply IH; [eapply Hpres; eassumption|]. pose proof (H_progress _ _ _ _ _ Hl Hp). lia.
+    Qed.
+
+    (* every target a moving fix asks for starts a candidate sequence that never repeats a name *)
+    Hypothesis H_targets : forall r file content to,
+      oracle_fix r file content = FRename to ->
+      forall i j, i <> j -> cand_iter candidate i to <> cand_iter candidate j to.
+
+    Lemma apply_fix_rename_oracle r file content l to :
+      apply_fix r file content l = FRename to -> oracle_fix r file content = FRename to.
+    Proof.
+      destruct r; cbn [FixLoop.apply_fix]; intros H; try exact H; exfalso; exact (of_fix_out_not_rename _ _ H).
+    Qed.
+
+    Lemma pass_no_fuel vs : forall files fixed made c,
+      length files < rfuel -> pass vs files fixed made c <> PFuel.
+    Proof.
+      induction vs as [|v vs IH]; intros files fixed made c Hlen; simpl; [discriminate|].
+      destruct (skip_violation fixed v); [apply IH; exact Hlen|].
+      destruct (fs_get files (v_file v)) as [content|] eqn:Hg; [|discriminate].
+      destruct (apply_fix (v_rule v) (v_file v) content (v_loc v)) as [|c2|to|] eqn:Ha.
+      - apply IH; exact Hlen.
+      - apply IH. rewrite (fs_put_length_in _ _ _ c2 Hg). exact Hlen.
+      - unfold FixLoop.handle_rename. destruct (fs_get files to); [|discriminate].
+        destruct rename_on_conflict; [|discriminate].
+        destruct (rename_loop_terminates candidate files to rfuel
+                    (H_targets _ _ _ _ (apply_fix_rename_oracle _ _ _ _ _ Ha)) Hlen) as (k & _ & -> & _).
+        discriminate.
+      - discriminate.
+    Qed.
+
+    Theorem loop_terminates fuel files c :
+      mu files < fuel -> length files < rfuel -> loop fuel files c <> OutOfFuel.
+    Proof.
+      intros Hmu Hlen.
+      apply (loop_terminates_gen (fun f => length f < rfuel)); [| |exact Hlen|exact Hmu].
+      - intros f vs c0 HP _. apply pass_no_fuel. exact HP.
+      - intros f vs c0 f' made c' HP _ Hp. pose proof (pass_length_le _ _ _ _ _ _ _ _ Hp). lia.
     Qed.
   End Progress.
 
@@ -151,10 +374,14 @@ Section LoopProofs.
       forall files c, loop (S (mu_sum files)) files c <> OutOfFuel.
     Proof.
       intros Hlint files c.
-      apply (loop_terminates mu_sum); [|lia].
-      intros f vs f' c0 c' Hl Hp.
-      destruct (pass_sum_decreases vs f [] false c0 f' true c' (Hlint _ _ Hl) Hp) as [_ Hlt].
-      apply Hlt; reflexivity.
+      apply (loop_terminates_gen mu_sum) with (P := fun _ => True); [| | |exact I|lia].
+      - intros f vs f' c0 c' Hl Hp.
+        destruct (pass_sum_decreases vs f [] false c0 f' true c' (Hlint _ _ Hl) Hp) as [_ Hlt].
+        apply Hlt; reflexivity.
+      - intros f vs c0 _ Hl. apply pass_no_move_no_fuel.
+        eapply Forall_impl; [|exact (Hlint _ _ Hl)]. cbv beta. intros v -> file content l to.
+        rewrite H_fix. apply of_fix_out_not_rename.
+      - intros; exact I.
     Qed.
   End SumMeasure.
 
@@ -295,11 +522,15 @@ Section LoopProofs.
     forall files c, loop (S (mu_sum text_measure files)) files c <> OutOfFuel.
   Proof.
     intros Hlint files c.
-    apply (loop_terminates (mu_sum text_measure)); [|lia].
-    intros f vs f' c0 c' Hl Hp.
-    assert (Hinv : inv f f []) by (intros g; reflexivity).
-    destruct (pass_text_decreases f vs f [] false c0 f' true c' (Hlint _ _ Hl) Hinv Hp) as [_ Hlt].
-    apply Hlt; reflexivity.
+    apply (loop_terminates_gen (mu_sum text_measure)) with (P := fun _ => True); [| | |exact I|lia].
+    - intros f vs f' c0 c' Hl Hp.
+      assert (Hinv : inv f f []) by (intros g; reflexivity).
+      destruct (pass_text_decreases f vs f [] false c0 f' true c' (Hlint _ _ Hl) Hinv Hp) as [_ Hlt].
+      apply Hlt; reflexivity.
+    - intros f vs c0 _ Hl. apply pass_no_move_no_fuel.
+      eapply Forall_impl; [|exact (Hlint _ _ Hl)]. cbv beta. intros v [Ht _].
+      apply text_rule_never_moves. destruct (v_rule v); try discriminate Ht; tauto.
+    - intros; exact I.
   Qed.
 
   (* with only use-assignment-operator enabled, fixing terminates whatever columns the linter reports:
